@@ -22,6 +22,8 @@ _KEEP = ('Produce', 'SrcFail', 'SrcEnd', 'Got', 'Stop', 'GotExc', 'Threads')
 
 
 def _prep(sc, r):
+    if sc.get('twin'):
+        return None                      # (the second bridge's worker would show up in the `alive` counts)
     ev = []
     for e in r['events']:
         k = e['e']
